@@ -5,7 +5,7 @@
 From Coq Require Import ZArith NArith String List Bool.
 Import ListNotations.
 From TP Require Import Base.PyVal Fields.FieldAst Fields.SetChain Struct.Define Struct.DefineProofs
-     Struct.Derive Struct.DeriveProofs.
+     Struct.Derive Struct.DeriveProofs Struct.DeriveNone Struct.DeriveNoneProofs.
 Local Open Scope string_scope.
 
 Section C12.
@@ -137,6 +137,28 @@ Section C12.
       (forall s, derive_stmt (bases_ignore_none g k) k o cn = Ok s -> is_ok (define re_match e gd g s) = true) ->
       is_ok (derive g k o cn) = true.
   Proof. exact (derive_total re_match e gd). Qed.
+
+  (* The derived class SEES the `_ignore_none` attribute exactly as its source does: absent, False or True (three
+     values, not two: an explicit False is not "nothing") ... *)
+  Theorem C12_seen_ignore_none : forall g k o cn k',
+      base_ok g -> inherited_ignore_none g [n_Structure] = None ->
+      find_klass g (k_name k) = Some k -> k_mro k = k_name k :: tl_str (k_mro k) ->
+      derived_name o cn k <> n_Structure ->
+      derive g k o cn = Ok k' ->
+      seen_ignore_none (k' :: g) k' = seen_ignore_none g k.
+  Proof. exact (derive_seen_ignore_none re_match e gd). Qed.
+
+  (* ... hence Structure.__setattr__'s decision getattr(self, '_ignore_none', TypedPyDefaults.allow_none_for_optionals)
+     is the same for the derived class and for its source under EVERY value of the process-wide default -- the value
+     is a parameter of the decision, read when the instance is assigned to, so also after it was switched *)
+  Theorem C12_none_decision : forall g k o cn k',
+      base_ok g -> inherited_ignore_none g [n_Structure] = None ->
+      find_klass g (k_name k) = Some k -> k_mro k = k_name k :: tl_str (k_mro k) ->
+      derived_name o cn k <> n_Structure ->
+      derive g k o cn = Ok k' ->
+      forall allow_none_default : bool,
+        none_decision (k' :: g) allow_none_default (k_mro k') = none_decision g allow_none_default (k_mro k).
+  Proof. exact (derive_none_decision re_match e gd). Qed.
 End C12.
 
 Print Assumptions C12_fields.
@@ -151,6 +173,8 @@ Print Assumptions C12_compose.
 Print Assumptions C12_bad_name.
 Print Assumptions C12_source_unchanged.
 Print Assumptions C12_operators_total.
+Print Assumptions C12_seen_ignore_none.
+Print Assumptions C12_none_decision.
 
 (* ------------------------------------------------------------------ non-vacuity *)
 
@@ -232,6 +256,34 @@ Example C12_constant_and_inherited_ignore_none :
       | Raise _ => False
       end
   | None => False
+  end.
+Proof. vm_compute. repeat split; reflexivity. Qed.
+
+(* a source that opts OUT (explicit False, overriding a base that says True) under the process-wide default True:
+   the hypotheses of C12_none_decision hold and both classes reject None, although the default alone would drop it *)
+Definition ex_strict : classstmt :=
+  {| s_name := nm "Strict"; s_bases := [nm "B"];
+     s_members := [(nm "note", SDecl f_str false None None)];
+     s_required := Some []; s_optional := None; s_additional := None; s_ignore_none := Some false;
+     s_attrs := []; s_keys_of := [] |}.
+
+Example C12_none_decision_nonvacuous :
+  match define (fun _ _ => true) [] default_guards genv0 ex_base with
+  | Ok b =>
+      match define (fun _ _ => true) [] default_guards (b :: genv0) ex_strict with
+      | Ok k =>
+          let g := k :: b :: genv0 in
+          inherited_ignore_none g [n_Structure] = None /\ find_klass g (k_name k) = Some k /\
+          k_mro k = k_name k :: tl_str (k_mro k) /\
+          seen_ignore_none g k = Some false /\ none_decision g true (k_mro k) = false /\
+          match derive (fun _ _ => true) [] default_guards g k OpPartial None with
+          | Ok k' => seen_ignore_none (k' :: g) k' = Some false /\ none_decision (k' :: g) true (k_mro k') = false /\
+                     none_decision (k' :: g) true [n_Structure] = true
+          | Raise _ => False
+          end
+      | Raise _ => False
+      end
+  | Raise _ => False
   end.
 Proof. vm_compute. repeat split; reflexivity. Qed.
 
